@@ -184,7 +184,9 @@ ROBUST_OPTS = [[], ["--layout=reverse"], ["--layout=reverse-list"], ["--border"]
                ["--ellipsis", ""], ["--tabstop=1"], ["--gap"], ["--highlight-line"], ["--scrollbar", "|"], ["--no-scrollbar", "--no-separator"],
                ["--ansi"], ["--read0"], ["--tac"], ["--cycle", "--scroll-off=10"], ["--border-label", "L", "--preview-label", "P"],
                ["--tmux-ignored-placeholder"]]
-RAW = ["1b", "1b5b", "1b5b31", "1b5b3c", "1b5b3c303b353b354d", "1b5b3c303b353b356d", "1b5b3c33323b313b314d", "1b5b3c36343b323b324d", "1b5b3c36353b323b324d",
+RAW = ["1b5b333b", "1b5b333b35", "1b5b313b", "1b5b313b32", "1b5b32", "1b5b323b", "1b5b35", "1b5b36", "1b5b3b", "1b5b313b3541", "1b5b333b357e",
+       "1b5b32357e", "1b5b32397e", "1b5b3c3b3b4d", "1b5b3c303b303b304d", "1b4f51", "1b5b313b3248", "1b5b5b41",
+       "1b", "1b5b", "1b5b31", "1b5b3c", "1b5b3c303b353b354d", "1b5b3c303b353b356d", "1b5b3c33323b313b314d", "1b5b3c36343b323b324d", "1b5b3c36353b323b324d",
        "1b5b3c303b3939393b3939394d", "1b5b4d202121", "1b5b3230307e", "1b5b3230317e", "1b5b3230307e61620d631b5b3230317e", "1b4f", "1b4f50", "1b5b313b3541",
        "1b5b41", "1b5b42", "1b5b357e", "1b5b367e", "1b5b5a", "1b1b", "1b7f", "c3", "e6bc", "e6bca2", "ff", "fe80", "00", "1d", "1e", "1f", "7f", "09", "0c", "12",
        "1b5b3939393939393939393939393b31523b", "1b5b313b3152", "1b5d", "1b50", "1b5b3f", "9b41", "61", "20", "0b", "0e", "10", "15", "17", "19", "01", "05", "02", "06", "08"]
@@ -296,6 +298,42 @@ def sweep_scenario(rng, k):
         steps.append(["resize", w, h])
         steps.append(["post", rng.choice(pokes)])
     return {"kind": "R", "cfg": cfg, "extra": extra, "data": data.decode("latin-1"), "size": [80, 24], "steps": steps, "sweep": k % len(SWEEP_OPTS)}
+
+
+# directed robustness lives: items taller than one row (gaps, multi-line records, wrapped long lines) x --scroll-off x
+# list heights, walked through with cursor and offset actions (the scroll arithmetic must terminate at every height)
+SCROLL_OPTS = [["--gap"], ["--gap=2", "--multi"], ["--read0"], ["--wrap"], ["--gap", "--layout=reverse"], ["--read0", "--gap", "--highlight-line"],
+               ["--wrap", "--layout=reverse-list"], ["--gap", "--cycle"]]
+
+
+def scroll_scenario(rng, k):
+    opts = list(SCROLL_OPTS[k % len(SCROLL_OPTS)])
+    so = rng.choice([None, 0, 1, 2, 3, 5, 10])
+    if so is not None:
+        opts.append("--scroll-off=%d" % so)
+    height = rng.choice([5, 6, 7, 8, 9, 10, 11, 12, 14])
+    cfg = {"full": False, "mouse": False, "clear": True, "height": str(height)}
+    if rng.random() < 0.3:
+        cfg = {"full": True, "mouse": False, "clear": True}
+    extra = opts + ["--bind", "esc:ignore,ctrl-c:ignore,ctrl-g:ignore,ctrl-q:ignore,enter:ignore,ctrl-d:ignore,double-click:ignore,ctrl-z:ignore",
+                    "--bind", "f9:toggle-sort"]
+    sep = b"\0" if "--read0" in opts else b"\n"
+    items = []
+    for i in range(20):
+        if "--read0" in opts:
+            items.append(b"\n".join(b"%d-%d" % (i, j) for j in range(rng.choice([1, 2, 3, 5]))))
+        elif "--wrap" in opts:
+            items.append((b"%d " % i) + b"w" * rng.choice([5, 90, 170, 400]))
+        else:
+            items.append(b"%d" % i)
+    data = b"".join(i + sep for i in items)
+    moves = ["up", "up", "down", "down", "page-up", "page-down", "half-page-up", "half-page-down", "first", "last", "offset-up", "offset-down",
+             "offset-middle", "pos(3)", "pos(-3)", "toggle+up", "up+up+up", "down+down"]
+    steps = [["post", rng.choice(moves)] for _ in range(rng.randint(14, 24))]
+    if cfg["full"]:
+        for i in range(0, len(steps), 5):
+            steps.insert(i, ["resize", rng.choice([40, 80]), rng.choice([5, 6, 7, 8, 9, 10, 12])])
+    return {"kind": "R", "cfg": cfg, "extra": extra, "data": data.decode("latin-1"), "size": [80, 24], "steps": steps, "sweep": 100 + k}
 
 
 def run_robust(ctx, fzf, sid, sc):
@@ -485,6 +523,8 @@ def run(ctx):
         ks = list(range(len(SWEEP_OPTS))) if ctx.quick else list(range(3 * len(SWEEP_OPTS)))
         for k in ks:
             scenarios.append(sweep_scenario(rng, k))
+        for k in range(ctx.pick(2 * len(SCROLL_OPTS), 12 * len(SCROLL_OPTS))):
+            scenarios.append(scroll_scenario(rng, k))
 
     with open(os.path.join(ctx.work, "scenarios.json"), "w") as fh:
         json.dump(scenarios, fh)
